@@ -226,7 +226,8 @@ fn compare(cfg: &Cfg, metrics_: &[Metric], st: &[MState], descs: &BTreeMap<Strin
                 if count_s.len() != 1 || count_s[0].2 != n {
                     return Some(("C07:histogram-count-differs".into(), format!("{}: _count {:?}, samples recorded {}", fam.name, count_s.iter().map(|s| s.3.clone()).collect::<Vec<_>>(), n)));
                 }
-                if sum_s.len() != 1 || sum_s[0].2 != sum {
+                let sum_ok = sum_s.len() == 1 && (sum_s[0].2 == sum || (sum.is_nan() && sum_s[0].2.is_nan()));
+                if !sum_ok {
                     return Some(("C07:histogram-sum-differs".into(), format!("{}: _sum {:?}, sum recorded {}", fam.name, sum_s.iter().map(|s| s.3.clone()).collect::<Vec<_>>(), sum)));
                 }
                 if let Some(bk) = &bk {
@@ -450,7 +451,8 @@ fn run_seq(a: &Args, hostile: bool) -> Report {
                             let hnd = e.rec.register_histogram(&key, &MD);
                             let k = *r.pick(&[1usize, 1, 2, 70]);
                             for _ in 0..k {
-                                let v = (r.range(-8, 400) as f64) * 0.25;
+                                // mostly dyadic values (exact sums); now and then a non-finite one, which still counts
+                                let v = if r.chance(1, 40) { *r.pick(&[f64::NAN, f64::INFINITY, f64::NEG_INFINITY]) } else { (r.range(-8, 400) as f64) * 0.25 };
                                 hnd.record(v);
                                 st[i].samples.push(v);
                             }
